@@ -1241,10 +1241,14 @@ func (in *Interp) call(at *Node, name string, argExprs []*Expr, piped interface{
 
 // isSet: the argument resolves to an existing, non-nil value.
 func (in *Interp) isSet(at *Node, e *Expr) (ok bool) {
+	// a failure while looking is an answer ("no"), and like try it leaves no other trace: what a template
+	// executed for the answer had rebound when it failed is as before
+	savedScope, savedCtx, savedContent, savedDepth, nw := in.scope, in.ctx, in.content, in.depth, len(in.writers)
 	defer func() {
 		if r := recover(); r != nil {
 			if _, isME := r.(*ModelError); isME {
 				ok = false
+				in.scope, in.ctx, in.content, in.depth, in.writers = savedScope, savedCtx, savedContent, savedDepth, in.writers[:nw]
 				return
 			}
 			panic(r)
